@@ -49,6 +49,8 @@ func NewEngine() *Engine {
 		MaxPaths:   20000,
 		Trusted:    map[string]bool{},
 		Notes:      map[string]bool{},
+		LockHook:   monitor{},
+		GhostFns:   map[string]*GhostFn{},
 	}
 }
 
